@@ -43,10 +43,29 @@ def grd5(P, R, L):
         e_wal_lt += c.edges_where("lt", other(is_curr), is_curr, exact=True)
         e_wal_ne += c.edges_where("ne", other(is_prev), is_prev, exact=True)
         e_man_lt += c.edges_where("lt", other(is_man), is_man, exact=True)
-    # the None arm of `match maybe_prev_wal_number()` also establishes "not the previous WAL"
-    for bb in range(b.n):
-        for st in b.blocks[bb]["stmts"]:
-            pass
+    # the same test written with a combinator: `maybe_prev_wal_number().map_or(false, |prev| prev == n)` (or `.is_some_and(..)`):
+    # the false edge of the call's result establishes "not the previous WAL"
+    from .round12 import _value_comparisons
+    for c in b.calls():
+        nm = (c.name or "").rsplit("::", 1)[-1]
+        if b.is_cleanup(c.bb) or nm not in ("map_or", "is_some_and") or c.dest["p"] or not c.args or not is_prev(origins(b, c.args[0])):
+            continue
+        if nm == "map_or" and not (len(c.args) == 3 and c.args[1].get("k") == "const" and str(c.args[1].get("val")) in ("false", "0")):
+            continue
+        cb = None
+        for o in origins(b, c.args[-1]):
+            if o.kind == "agg" and o.name and P.body(o.name) is not None:
+                cb = P.body(o.name)
+        if cb is None:
+            continue
+        R.analysed(cb)
+        vcs = _value_comparisons(cb)
+        if len(vcs) == 1 and vcs[0].op == "eq":
+            sides = [origins(cb, vcs[0].lhs), origins(cb, vcs[0].rhs)]
+            payload = [any(o.kind == "param" and o.name == 2 for o in s_) for s_ in sides]
+            if payload.count(True) == 1 and any(o.kind == "binop" or o.kind == "call" for o in origins(cb, {"l": 0, "p": []})):
+                for t in bool_tests(b, c.dest["l"]):
+                    e_wal_ne += t.err_edges()
     # contains() tests on the live set
     e_not_live = []
     live_locals = set()
@@ -146,7 +165,7 @@ def own4(P, R, L):
                 continue
             if c.declared_name in REMOVERS and c.t.get("dyn"):
                 n += 1
-                ok = p in ALLOWED_DELETERS or _only_called_by_allowed(P, p)
+                ok = p in ALLOWED_DELETERS or p == _gc_deleting_closure(P) or _only_called_by_allowed(P, p)
                 R.check("OWN-4", "%s|calls=%s" % (p, c.declared_name.rsplit("::", 1)[1]), ok, c.where(),
                         "only the listed owners delete files", ALLOWED_DELETERS.get(p, "not an allowed deleter"))
                 R.analysed(b)
@@ -157,7 +176,7 @@ def own4(P, R, L):
     R.call_sites += n
     R.floor("OWN-4", "file removal call sites", n, 12)
     # the deleting section deletes exactly the queued list
-    cb = P.body("db::DB::remove_obsolete_files::{closure#0}")
+    cb = P.body(_gc_deleting_closure(P) or "")
     if cb is None:
         R.missing_anchor("OWN-4", "remove_obsolete_files deleting closure")
     else:
@@ -166,6 +185,15 @@ def own4(P, R, L):
         ok = bool(rm) and all(any(o.kind == "upvar" and o.name == "files_to_delete" for o in origins(cb, c.args[1])) or
                               any("files_to_delete" in repr(o) for o in origins(cb, c.args[1])) or _from_upvar_iter(cb, c) for c in rm)
         R.check("OWN-4", cb.path + "|deletes-only-queued", ok, K.where(cb), "the deleting section removes only paths taken from files_to_delete", "")
+
+
+def _gc_deleting_closure(P):
+    """the deleting section of the collector: THE closure of DB::remove_obsolete_files that removes files (closures are numbered in
+    source order, so the number is not part of its identity; more than one deleting closure is nobody's reviewed section)"""
+    host = K.REMOVE_OBSOLETE + "::{closure#"
+    cands = [p for p, b in P.bodies_as_written.items() if p.startswith(host) and p.endswith("}") and
+             any(c.declared_name in REMOVERS and not b.is_cleanup(c.bb) for c in b.calls())]
+    return cands[0] if len(cands) == 1 else None
 
 
 def _from_upvar_iter(cb, c):
